@@ -58,6 +58,10 @@ def cases(shard):
         for q in synth.QINITS:
             for moore in (True, False):
                 yield dict(kind='hand', i=shard['i'], qinit=q, moore=moore)
+                # the same machine registered under swapped role keys: the
+                # implementation under 'env', the environment under 'sys'
+                yield dict(kind='hand', i=shard['i'], qinit=q, moore=moore,
+                           swapped_keys=True)
         return
     for c in fam.games(shard, rabin=shard['rabin']):
         h = int(stable_hash(c)[:8], 16)
@@ -241,13 +245,15 @@ def run_hand(case, acc):
     env, sys_, ei, si, en, sn = HAND[case['i']]
     aut = trl.Automaton()
     aut.declare_variables(**dict(env + sys_))
-    aut.varlist = dict(env=[v for v, _ in env], impl=[v for v, _ in sys_],
-                       sys=[v for v, _ in sys_])
-    aut.init['env'] = aut.add_expr(ei)
-    aut.init['impl'] = aut.add_expr(si)
-    aut.action['env'] = aut.add_expr(en)
-    aut.action['impl'] = aut.add_expr(sn)
-    aut.action['sys'] = aut.action['impl']
+    ek, ik = ('sys', 'env') if case.get('swapped_keys') else ('env', 'impl')
+    aut.varlist = {ek: [v for v, _ in env], ik: [v for v, _ in sys_]}
+    aut.init[ek] = aut.add_expr(ei)
+    aut.init[ik] = aut.add_expr(si)
+    aut.action[ek] = aut.add_expr(en)
+    aut.action[ik] = aut.add_expr(sn)
+    if not case.get('swapped_keys'):
+        aut.varlist['sys'] = [v for v, _ in sys_]
+        aut.action['sys'] = aut.action['impl']
     aut.moore = bool(case['moore'])
     aut.plus_one = True
     aut.qinit = case['qinit']
@@ -255,28 +261,30 @@ def run_hand(case, acc):
     gcase = dict(env=[[v, h if h == 'bool' else list(h)] for v, h in env],
                  sys=[[v, h if h == 'bool' else list(h)] for v, h in sys_],
                  const=[])
-    gm = fam.GameModel(aut, gcase)
-    if aut.moore and _impl_reads_env_next(aut, gm):
+    gm = fam.GameModel(aut, gcase, env_action=aut.action[ek],
+                       sys_action=aut.action[ik])
+    if aut.moore and _impl_reads_env_next(aut, gm, ik):
         acc.ev()
         acc.count('skipped_moore_with_mealy_action')
         return
-    cl = ClosedLoop(aut, gm, [], impl=aut.action['impl'],
-                    init=aut.init['impl'] & aut.init['env'])
-    check_graph(case, acc, aut, gm, cl, 'impl', case['qinit'], None, None,
-                False)
+    cl = ClosedLoop(aut, gm, [], impl=aut.action[ik],
+                    init=aut.init[ik] & aut.init[ek])
+    check_graph(case, acc, aut, gm, cl, ik, case['qinit'], None, None,
+                False, envname=ek)
 
 
-def _impl_reads_env_next(aut, gm):
-    supp = aut.support(aut.action['impl'])
+def _impl_reads_env_next(aut, gm, ik='impl'):
+    supp = aut.support(aut.action[ik])
     return bool(supp & {prime(v) for v in gm.env})
 
 
-def check_graph(case, acc, aut, gm, cl, sysname, q, P, G, rabin):
+def check_graph(case, acc, aut, gm, cl, sysname, q, P, G, rabin,
+                envname='env'):
     from omega.games import enumeration as enum
     try:
-        g = enum.action_to_steps(aut, 'env', sysname, qinit=q)
+        g = enum.action_to_steps(aut, envname, sysname, qinit=q)
     except AssertionError as exc:
-        if _init_unsatisfiable(aut, gm, cl, q):
+        if _init_unsatisfiable(aut, gm, cl, q, envname, sysname):
             acc.ev()
             acc.count('skipped_initial_condition_unsatisfiable_in_form')
             return
@@ -299,7 +307,7 @@ def check_graph(case, acc, aut, gm, cl, sysname, q, P, G, rabin):
             nodes=sorted(nodes.values(), key=repr)))
         return
     # ---- initial nodes
-    EI = gm.srd.table(aut.init['env']) if nsv else {()}
+    EI = gm.srd.table(aut.init[envname]) if nsv else {()}
     II = cl.frd.table(aut.init[sysname])
     init_nodes = [nodes[u] for u in g.initial_nodes]
     both = {s for s in II if s[:nsv] in EI}
@@ -409,11 +417,11 @@ def _fair_cycle(h, P, G, rabin, nsv):
     return None
 
 
-def _init_unsatisfiable(aut, gm, cl, q):
+def _init_unsatisfiable(aut, gm, cl, q, envname='env', sysname='impl'):
     """Is there no way to pick initial nodes in the form `q` at all?"""
     nsv, ne = cl.nsv, gm.ne
-    EI = gm.srd.table(aut.init['env']) if nsv else {()}
-    II = cl.frd.table(aut.init['impl'])
+    EI = gm.srd.table(aut.init[envname]) if nsv else {()}
+    II = cl.frd.table(aut.init[sysname])
     if q == r'\A \A':
         return not any(s[:nsv] in EI for s in II)
     if q == r'\E \E':
